@@ -359,6 +359,10 @@ type Runner struct {
 	// cycle the runner waits until the cache's listers show exactly the store content (no informer lag is
 	// modelled); if they do not within 5 s the cycle result carries NotSynced. Call Close when done.
 	Persistent bool
+	// PodGroupLag (with Persistent): the cache's PodGroup informer sees a modification of a PodGroup - in practice the
+	// scheduler's own status / annotation patches - only after the NEXT session has taken its snapshot (slow watch).
+	// The snapshot then has to be completed from the status updater's record of applied-but-unobserved updates.
+	PodGroupLag bool
 	pcache     cache.Cache
 	pstop      chan struct{}
 }
@@ -437,7 +441,7 @@ func (r *Runner) listersInSync(c cache.Cache) bool {
 		sg[metaKey(g)] = g
 	}
 	for _, g := range pgs {
-		if q, ok := sg[metaKey(g)]; !ok || !same(g, q) {
+		if q, ok := sg[metaKey(g)]; !ok || (!same(g, q) && !r.PodGroupLag) {
 			return false
 		}
 	}
@@ -594,6 +598,9 @@ func (r *Runner) Cycle() (res *CycleResult) {
 			r.pcache, r.pstop = real, stop
 		}
 	}
+	if r.Persistent && r.PodGroupLag {
+		r.St.PodGroupLag.Store(true)
+	}
 	if r.Persistent {
 		deadline := time.Now().Add(5 * time.Second)
 		for !r.listersInSync(real) {
@@ -640,6 +647,9 @@ func (r *Runner) Cycle() (res *CycleResult) {
 			framework.CloseSession(ssn)
 			CurrentProportion = nil
 		}()
+		if r.Persistent && r.PodGroupLag {
+			r.St.ReleasePodGroupEvents() // the snapshot is taken: now the informer catches up with the previous cycle
+		}
 		if r.Hooks.AfterOpen != nil {
 			r.Hooks.AfterOpen(ssn, rc)
 		}
